@@ -95,6 +95,8 @@ class Gen:
 
     def open_label(self, props, name, text_origin):
         self.close_label()
+        if getattr(self, '_no_labels', False):
+            return
         lab = {
             'name': name,
             'props': [] if props == '-' else props.split(','),
@@ -229,10 +231,22 @@ class Gen:
             it = rs.find_item(src, kv['header'], kv['file'])
         except LookupError as e:
             raise Undecided(str(e))
-        text, hits = rules.apply(it.text, self, kv.get('rules', ''), fn_id=pos[0] if pos else '?')
+        item_text = it.text
+        base = it.line_start
+        if kv.get('attrs') == 'yes':
+            # include the #[...] attribute lines that immediately precede the item
+            lines = src.split('\n')
+            k = it.line_start - 2
+            pre = []
+            while k >= 0 and lines[k].strip().startswith('#['):
+                pre.insert(0, lines[k])
+                k -= 1
+            if pre:
+                item_text = '\n'.join(pre) + '\n' + item_text
+                base -= len(pre)
+        text, hits = rules.apply(item_text, self, kv.get('rules', ''), fn_id=pos[0] if pos else '?')
         for k, v in hits.items():
             self.rule_hits[k] = self.rule_hits.get(k, 0) + v
-        base = it.line_start
         for k, l in enumerate(text.split('\n')):
             self.emit(l, ('repo', kv['file'], base + k))
         self.struct_checks.append({'name': pos[0] if pos else kv['header'], 'file': kv['file'], 'verbatim': True,
@@ -301,16 +315,7 @@ class Gen:
         if orig is not None and rs.norm_ws(orig) != rs.norm_ws(it.signature):
             raise Undecided(f'{fid}: signature in {kv["file"]}:{it.line_start} is now `{rs.norm_ws(it.signature)}`; '
                             f'the contract was written for `{rs.norm_ws(orig)}` (contract needs review)')
-        # emit signature + contract
-        for text, ln in sig_lines:
-            self.feed(text, (kind, path, ln))
-        self.close_label()
-        if self.false_twin and kv.get('twin', 'yes') != 'no':
-            # add `ensures false`: find whether an ensures exists in sig_lines
-            has_ens = any(re.match(r'^\s*ensures\b', t) for t, _ in sig_lines)
-            has_dec_idx = None
-            # insert before decreases if present: simplest is to rebuild
-            self._insert_false(has_ens)
+        # (signature + contract are emitted by emit_copy below, after the body is prepared)
         # body
         body = it.body
         body, hits = rules.apply(body, self, kv.get('rules', ''), fn_id=fid, local=local_rw)
@@ -365,23 +370,41 @@ class Gen:
                 raise Undecided(f'{fid}: hint anchor /{rx}/ matches {len(cands)} body lines')
             k = cands[0] + (1 if where == 'after' else 0)
             body_lines[k:k] = [(t, ('tmpl', path, ln)) for t, ln in hl]
-        for t, o in body_lines:
-            if o[0] == 'repo':
-                self.close_label()
-                self.emit(t, o)
-            else:
-                self.feed(t, o)
-        self.close_label()
+        def emit_copy(twin):
+            if twin:
+                self._no_labels = True
+            first = len(self.lines)
+            for text, ln in sig_lines:
+                if twin:
+                    text = re.sub(r'\bfn ' + re.escape(kv['name']) + r'\b', 'fn ' + kv['name'] + '__twin', text, count=1)
+                self.feed(text, (kind, path, ln))
+            self.close_label()
+            if twin:
+                self._insert_false_from(first)
+            for t, o in body_lines:
+                if o[0] == 'repo':
+                    self.close_label()
+                    self.emit(t, o)
+                else:
+                    self.feed(t, o)
+            self.close_label()
+            self._no_labels = False
+
+        emit_copy(False)
         fn['gen_end'] = len(self.lines)
         fn['loops'] = len(heads)
         self.fns.append(fn)
+        if self.false_twin and kv.get('twin', 'yes') != 'no':
+            tw = dict(fn, id=fn['id'] + '#twin', kind='twin', gen_start=len(self.lines) + 1)
+            self._cur_fn = tw
+            emit_copy(True)
+            tw['gen_end'] = len(self.lines)
+            self.fns.append(tw)
         self._cur_fn = None
         return i
 
-    def _insert_false(self, has_ens):
-        # walk back over emitted sig lines to find 'decreases' or end
+    def _insert_false_from(self, fstart):
         k = len(self.lines)
-        fstart = self._cur_fn['gen_start'] - 1
         dec = None
         ens = None
         for j in range(fstart, k):
